@@ -1,8 +1,9 @@
 (* Proofs/EncodeNdpOpts.v — C03/C07 glue, round 7: the NDP option marshal functions (RawOption.marshal and,
    through it, LinkLayerAddress / MTU / PrefixInformation / RecursiveDNSServer / DNSSearchList .marshal, as
    modelled by SEND in Model/SendNdp.v) are inverted by the RFC 4861 4.6 reference option decoder: a marshalled
-   option list decodes to the list of (type, value) pairs, in order, for every option whose Length octet is
-   below 32 (above, the library's uint8 arithmetic Length*8 wraps and marshal checks the wrong size). *)
+   option list decodes to the list of (type, value) pairs, in order — for EVERY option list that marshals (since
+   repo fix 5a1aeef by SEND: the size is int(Length)*8; the uint8 product Length*8 wrapped for Length >= 32 and
+   the theorem needed a hypothesis on the Length octet). *)
 From PV Require Import Base.Prelude Base.Slice Model.EncodeBase Spec.EncodeRef Proofs.EncodeLemmas Proofs.EncodeMisc
      Proofs.EncodeGluePath.
 From PV Require Model.SendBase Model.Send Model.SendNdp.
@@ -12,39 +13,29 @@ Ltac blia := unfold bytes, byte in *; lia.
 Definition raw3 := (N * N * bytes)%type.
 Definition marshal_raw (o : raw3) : option bytes := let '(ty, ln, v) := o in SendNdp.raw_option ty ln v.
 Definition decoded_raw (o : raw3) : N * bytes := let '(ty, _, v) := o in (u8 ty, v).
-Definition len_ok (o : raw3) : Prop := let '(_, ln, _) := o in u8 ln < 32.
 
 Lemma raw_option_shape ty ln v ob :
-  u8 ln < 32 -> SendNdp.raw_option ty ln v = Some ob ->
+  SendNdp.raw_option ty ln v = Some ob ->
   ob = [u8 ty; u8 ln] ++ v /\ (8 * N.to_nat (u8 ln) = 2 + length v)%nat.
 Proof.
-  (* written to hold for both forms of the size computation in SEND's model: N.to_nat (u8 (len * 8)) (the
-     library's uint8 product, before the repair of RawOption.marshal) and N.to_nat (8 * u8 len) (after) *)
-  intros Hl. unfold SendNdp.raw_option.
-  assert (W : u8 (ln * 8) = 8 * u8 ln).
-  { unfold u8 in *. rewrite (N.div_mod ln 256) at 1 by discriminate.
-    replace ((256 * (ln / 256) + ln mod 256) * 8) with (ln mod 256 * 8 + (ln / 256 * 8) * 256) by lia.
-    rewrite N.mod_add by discriminate. rewrite N.mod_small by lia. lia. }
-  cbv zeta.
-  match goal with |- context [Nat.eqb ?a ?b] => destruct (Nat.eqb_spec a b) as [E|E]; [|discriminate] end.
-  intros H. injection H as <-. split; [reflexivity|].
-  rewrite ?W in E. blia.
+  unfold SendNdp.raw_option.
+  destruct (Nat.eqb_spec (2 + length v) (N.to_nat (8 * u8 ln))) as [E|E]; [|discriminate].
+  intros H. injection H as <-. split; [reflexivity|]. blia.
 Qed.
 
 Lemma nd_options_rt_fuel (l : list raw3) : forall fuel ob,
-  Forall len_ok l -> SendNdp.cat_opts (map marshal_raw l) = Some ob -> (length l < fuel)%nat ->
+  SendNdp.cat_opts (map marshal_raw l) = Some ob -> (length l < fuel)%nat ->
   ref_nd_options fuel ob = Some (map decoded_raw l) /\ (2 * length l <= length ob)%nat.
 Proof.
-  induction l as [|[[ty ln] v] l IH]; intros fuel ob HF Hc Hfu.
+  induction l as [|[[ty ln] v] l IH]; intros fuel ob Hc Hfu.
   - cbn in Hc. injection Hc as <-. destruct fuel; [cbn in Hfu; lia|]. split; [reflexivity|cbn; lia].
   - cbn [map SendNdp.cat_opts marshal_raw] in Hc.
     destruct (SendNdp.raw_option ty ln v) as [x|] eqn:Ex; [|discriminate].
     destruct (SendNdp.cat_opts (map marshal_raw l)) as [y|] eqn:Ey; [|discriminate].
     injection Hc as <-.
-    inversion HF as [|? ? Hlo HF']; subst. cbn in Hlo.
-    destruct (raw_option_shape ty ln v x Hlo Ex) as (-> & Hn).
+    destruct (raw_option_shape ty ln v x Ex) as (-> & Hn).
     destruct fuel as [|k]; [cbn in Hfu; lia|]. cbn [length] in Hfu.
-    destruct (IH k y HF' eq_refl ltac:(lia)) as (IHd & IHl).
+    destruct (IH k y eq_refl ltac:(lia)) as (IHd & IHl).
     cbn [ref_nd_options app].
     replace (8 * N.to_nat (u8 ln))%nat with (2 + length v)%nat by (symmetry; exact Hn).
     cbn [Nat.add Nat.eqb orb].
@@ -57,19 +48,19 @@ Proof.
 Qed.
 
 Theorem nd_options_rt (l : list raw3) ob :
-  Forall len_ok l -> SendNdp.cat_opts (map marshal_raw l) = Some ob ->
+  SendNdp.cat_opts (map marshal_raw l) = Some ob ->
   ref_nd_options (S (length ob)) ob = Some (map decoded_raw l).
 Proof.
-  intros HF Hc.
-  destruct (nd_options_rt_fuel l (S (length l)) ob HF Hc ltac:(lia)) as (_ & Hl).
-  apply (nd_options_rt_fuel l (S (length ob)) ob HF Hc). lia.
+  intros Hc.
+  destruct (nd_options_rt_fuel l (S (length l)) ob Hc ltac:(lia)) as (_ & Hl).
+  apply (nd_options_rt_fuel l (S (length ob)) ob Hc). lia.
 Qed.
 
 (* the router advertisement body: 16 octets of ICMPv6 header and RA fields, then the options *)
 Theorem ra_body_options_rt (l : list raw3) ob :
-  Forall len_ok l -> SendNdp.cat_opts (map marshal_raw l) = Some ob ->
+  SendNdp.cat_opts (map marshal_raw l) = Some ob ->
   ref_nd_options (S (length ob)) (skipn 16 (SendNdp.ra_body ob)) = Some (map decoded_raw l).
-Proof. intros HF Hc. change (skipn 16 (SendNdp.ra_body ob)) with ob. apply nd_options_rt; assumption. Qed.
+Proof. intros Hc. change (skipn 16 (SendNdp.ra_body ob)) with ob. apply nd_options_rt; assumption. Qed.
 
 (* Ether o IP6 o ICMPv6 o RA with options: the whole path of ICMP6SendRouterAdvertisement for any option list
    that marshals (every option constructor of Model/SendNdp.v is a [raw_option] instance or an error) *)
@@ -77,7 +68,7 @@ Theorem glue_ra_path c (src dst : SendBase.addr) (l : list raw3) ob junk :
   length junk = SendBase.EthMaxSize -> length (SendBase.host_mac c) = 6%nat -> length (SendBase.a_mac dst) = 6%nat ->
   length (SendBase.a_ip src) = 16%nat -> length (SendBase.a_ip dst) = 16%nat ->
   bytes_ok (SendBase.a_ip src) -> bytes_ok (SendBase.a_ip dst) ->
-  Forall len_ok l -> SendNdp.cat_opts (map marshal_raw l) = Some ob -> bytes_ok ob ->
+  SendNdp.cat_opts (map marshal_raw l) = Some ob -> bytes_ok ob ->
   (70 + length ob <= SendBase.EthMaxSize)%nat ->
   exists f ipb icmpb,
     Send.icmp6_send_packet c src dst (SendNdp.ra_body ob) junk = Ok [f] /\ length f = (70 + length ob)%nat /\
@@ -86,7 +77,7 @@ Theorem glue_ra_path c (src dst : SendBase.addr) (l : list raw3) ob junk :
     firstn 2 icmpb = [134; 0] /\ firstn 12 (skipn 4 icmpb) = firstn 12 (skipn 4 (SendNdp.ra_body ob)) /\
     ref_nd_options (S (length ob)) (skipn 16 icmpb) = Some (map decoded_raw l).
 Proof.
-  intros HJ Hsm Hdm Hs Hd Bs Bd HF Hc Bo Hfit.
+  intros HJ Hsm Hdm Hs Hd Bs Bd Hc Bo Hfit.
   assert (Lb : length (SendNdp.ra_body ob) = (16 + length ob)%nat) by reflexivity.
   assert (Bb : bytes_ok (SendNdp.ra_body ob)).
   { unfold SendNdp.ra_body. cbn [app]. repeat (apply bytes_ok_cons; split; [first [reflexivity | apply N.mod_lt; discriminate]|]). exact Bo. }
